@@ -11226,3 +11226,300 @@ func init() {
 		r.WithAlias(map[string]string{"C18-R6": "C19-R18"}, func() { checkC18(c, r) })
 	})
 }
+
+// ---------- C20-R20: a computed index into a fixed table is bounded by the table ----------
+func init() { registerExtra("C20", extraC20TableIndexBounded) }
+
+func extraC20TableIndexBounded(c *Ctx, r *Report) {
+	r.Rule("C20-R20", "in pkg/format, internal/util and the handlers (the code that renders numbers a backend reported: model sizes, byte counts, token counts), an index into a table of constant length (a composite literal) that is not itself a constant is bounded by the table: the use is control-dependent on idx < len(table) (or a constant within it), or idx is a loop counter that is only incremented under idx < len(table)-1 (or a constant below the length). A unit table scanned by 'divide until small' is safe only as far as its last entry: format.Bytes panicked with index out of range for sizes of 2^60 and more until the scan was bounded by the table (F23)", 1)
+	inScope := func(pp string) bool {
+		return strings.HasSuffix(pp, "/pkg/format") || strings.HasSuffix(pp, "/internal/util") || strings.HasSuffix(pp, pkgHandlers)
+	}
+	// tableLen: the constant length of the literal the slice/array value was built from, or -1
+	tableLen := func(v ssa.Value) int64 {
+		switch x := stripConv(v).(type) {
+		case *ssa.Slice:
+			if pt, ok := x.X.Type().Underlying().(*types.Pointer); ok {
+				if at, ok := pt.Elem().Underlying().(*types.Array); ok && x.Low == nil && x.High == nil {
+					if _, isAlloc := x.X.(*ssa.Alloc); isAlloc {
+						return at.Len()
+					}
+				}
+			}
+		case *ssa.Alloc:
+			if at, ok := deref(x.Type()).Underlying().(*types.Array); ok {
+				return at.Len()
+			}
+		case *ssa.UnOp:
+			if g, ok := x.X.(*ssa.Global); ok {
+				if at, ok := deref(g.Type()).Underlying().(*types.Array); ok {
+					return at.Len()
+				}
+			}
+		}
+		return -1
+	}
+	// upperBound: a fact `v < E` / `v <= E` where E is a constant or len(tbl)-c; returns the largest value v can have
+	upper := func(v ssa.Value, tbl ssa.Value, n int64, facts []condFact) (int64, bool) {
+		evalBound := func(e ssa.Value) (int64, bool) {
+			if k, ok := constInt(e); ok {
+				return k, true
+			}
+			e = stripConv(e)
+			if bo, ok := e.(*ssa.BinOp); ok && bo.Op == token.SUB {
+				if k, ok := constInt(bo.Y); ok {
+					if call, ok := stripConv(bo.X).(*ssa.Call); ok {
+						if bi, ok := call.Call.Value.(*ssa.Builtin); ok && bi.Name() == "len" && tableLen(call.Call.Args[0]) == n {
+							return n - k, true
+						}
+					}
+				}
+			}
+			if call, ok := e.(*ssa.Call); ok {
+				if bi, ok := call.Call.Value.(*ssa.Builtin); ok && bi.Name() == "len" && tableLen(call.Call.Args[0]) == n {
+					return n, true
+				}
+			}
+			return 0, false
+		}
+		best, found := int64(0), false
+		for _, cf := range normFacts(facts) {
+			bo, ok := cf.Cond.(*ssa.BinOp)
+			if !ok {
+				continue
+			}
+			op := bo.Op
+			var e ssa.Value
+			switch {
+			case bo.X == v:
+				e = bo.Y
+			case bo.Y == v:
+				e = bo.X
+				switch op {
+				case token.LSS:
+					op = token.GTR
+				case token.LEQ:
+					op = token.GEQ
+				case token.GTR:
+					op = token.LSS
+				case token.GEQ:
+					op = token.LEQ
+				}
+			default:
+				continue
+			}
+			b, ok := evalBound(e)
+			if !ok {
+				continue
+			}
+			max := int64(-1)
+			switch {
+			case op == token.LSS && cf.True:
+				max = b - 1
+			case op == token.LEQ && cf.True:
+				max = b
+			case op == token.GEQ && !cf.True:
+				max = b - 1
+			case op == token.GTR && !cf.True:
+				max = b
+			default:
+				continue
+			}
+			if !found || max < best {
+				best, found = max, true
+			}
+		}
+		return best, found
+	}
+	n := 0
+	for _, f := range c.Funcs {
+		if !inScope(fnPkgPath(f)) || f.Blocks == nil {
+			continue
+		}
+		eachInstr(f, func(in ssa.Instruction) {
+			var idx, coll ssa.Value
+			switch x := in.(type) {
+			case *ssa.IndexAddr:
+				idx, coll = x.Index, x.X
+			case *ssa.Index:
+				idx, coll = x.Index, x.X
+			default:
+				return
+			}
+			if _, isK := idx.(*ssa.Const); isK {
+				return
+			}
+			N := tableLen(coll)
+			if N <= 0 {
+				return
+			}
+			// the literal's own element initialisation uses constant indices; a range over the table is in bounds
+			if ex, ok := idx.(*ssa.Extract); ok {
+				if _, isNext := ex.Tuple.(*ssa.Next); isNext {
+					return
+				}
+			}
+			n++
+			key := fname(f) + ":table-index-bounded"
+			ok := false
+			if max, found := upper(idx, coll, N, condFacts(in.Block())); found && max <= N-1 {
+				ok = true
+			}
+			// idioms that are in range by construction: rand.Intn(len(table)), x % len(table) for unsigned x
+			lenOfTable := func(v ssa.Value) bool {
+				if k, isK := constInt(v); isK {
+					return k > 0 && k <= N
+				}
+				if call, isCall := stripConv(v).(*ssa.Call); isCall {
+					if bi, isB := call.Call.Value.(*ssa.Builtin); isB && bi.Name() == "len" && tableLen(call.Call.Args[0]) == N {
+						return true
+					}
+				}
+				return false
+			}
+			switch x := stripConv(idx).(type) {
+			case *ssa.Call:
+				ci := describeCall(&x.Call)
+				if (ci.Pkg == "math/rand" || ci.Pkg == "math/rand/v2") && (ci.Name == "Intn" || ci.Name == "IntN" || ci.Name == "Int63n" || ci.Name == "Int31n") && len(x.Call.Args) >= 1 && lenOfTable(x.Call.Args[len(x.Call.Args)-1]) {
+					ok = true
+				}
+			case *ssa.BinOp:
+				if x.Op == token.REM && lenOfTable(x.Y) {
+					if b, isB := x.X.Type().Underlying().(*types.Basic); isB && b.Info()&types.IsUnsigned != 0 {
+						ok = true
+					}
+				}
+			}
+			if !ok {
+				// loop counter: phi(const, phi+1) with the increment taken only under phi < bound-1
+				if phi, isPhi := stripConv(idx).(*ssa.Phi); isPhi {
+					all := true
+					for i, e := range phi.Edges {
+						if k, isK := constInt(e); isK {
+							if k < 0 || k > N-1 {
+								all = false
+							}
+							continue
+						}
+						bo, isAdd := e.(*ssa.BinOp)
+						if !isAdd || bo.Op != token.ADD || bo.X != ssa.Value(phi) {
+							all = false
+							continue
+						}
+						step, isK := constInt(bo.Y)
+						if !isK || step < 0 {
+							all = false
+							continue
+						}
+						max, found := upper(phi, coll, N, append(condFacts(bo.Block()), edgeFactsOf(phi, i)...))
+						if !found || max+step > N-1 {
+							all = false
+						}
+					}
+					ok = all && len(phi.Edges) > 0
+				}
+			}
+			if ok {
+				r.OK("C20-R20", key, in.Pos(), fmt.Sprintf("index provably within the %d entries of the table", N))
+			} else {
+				r.Bad("C20-R20", key, in.Pos(), fmt.Sprintf("a computed index into a table of %d entries is not bounded by the table (no dominating comparison with its length, and not a counter that stops before the last entry): a large enough number — the handlers pass numbers reported by backends — indexes past the end and the request panics", N))
+			}
+		})
+	}
+	if n == 0 {
+		r.Undecided("C20-R20", "table-indexes", token.NoPos, "no computed index into a constant-length table found")
+	}
+	addMutants(Mutant{Prop: "C20", Name: "unit-scan-not-bounded-by-the-table", File: "pkg/format/format.go", Rule: "C20-R20",
+		Old: "	for n := bytes / unit; n >= unit && exp < len(units)-1; n /= unit {", New: "	for n := bytes / unit; n >= unit; n /= unit {"})
+}
+
+// edgeFactsOf: the facts on the i-th incoming edge of a phi.
+func edgeFactsOf(phi *ssa.Phi, i int) []condFact {
+	if i >= len(phi.Block().Preds) {
+		return nil
+	}
+	return edgeFacts(phi.Block().Preds[i], phi.Block())
+}
+
+// ---------- C10-R21 / C09-R19: removing an endpoint also removes it from the unifier's own records ----------
+func init() {
+	registerExtra("C10", func(c *Ctx, r *Report) { extraRemoveTellsUnifier(c, r, "C10-R21") })
+	registerExtra("C09", func(c *Ctx, r *Report) { extraRemoveTellsUnifier(c, r, "C09-R19") })
+}
+
+func extraRemoveTellsUnifier(c *Ctx, r *Report, rule string) {
+	r.Rule(rule, "UnifiedMemoryModelRegistry.RemoveEndpoint answers nil only after it has told the unifier that the endpoint is gone (a call that reaches ModelUnifier.UnifyModels — an empty listing — or a RemoveEndpoint on the unifier): the unifier keeps its own endpoint→models record and hands it back on the next UnifyModels of ANY endpoint sharing a model, so detaching the endpoint from the merged catalogue alone lets it reappear there — and in the alias fallback of the model→endpoints lookup — as soon as another endpoint re-lists the shared model (F24)", 1)
+	f := c.Fn(pkgRegistry, "(*UnifiedMemoryModelRegistry).RemoveEndpoint")
+	if f == nil {
+		r.Unresolved(rule, "(*UnifiedMemoryModelRegistry).RemoveEndpoint")
+		return
+	}
+	memo := map[*ssa.Function]bool{}
+	var tellsFn func(g *ssa.Function, d int) bool
+	tells := func(in ssa.Instruction) bool {
+		cc := getCall(in)
+		if cc == nil {
+			return false
+		}
+		if _, isDefer := in.(*ssa.Defer); isDefer {
+			return false
+		}
+		if cc.IsInvoke() {
+			name := cc.Method.Name()
+			if name == "UnifyModels" && isNamed(cc.Value.Type(), "internal/core/ports", "ModelUnifier") {
+				return true
+			}
+			if name == "RemoveEndpoint" {
+				// on a value obtained from the unifier field by type assertion
+				if mentionsField(cc.Value, pkgRegistry, "UnifiedMemoryModelRegistry", "unifier", 4) {
+					return true
+				}
+				if ex, ok := cc.Value.(*ssa.Extract); ok {
+					if ta, ok := ex.Tuple.(*ssa.TypeAssert); ok && mentionsField(ta.X, pkgRegistry, "UnifiedMemoryModelRegistry", "unifier", 4) {
+						return true
+					}
+				}
+			}
+			return false
+		}
+		if sc := cc.StaticCallee(); sc != nil && c.inRepo(sc) && strings.HasSuffix(fnPkgPath(sc), pkgRegistry) && sc != f {
+			return tellsFn(sc, 3)
+		}
+		return false
+	}
+	tellsFn = func(g *ssa.Function, d int) bool {
+		if v, ok := memo[g]; ok {
+			return v
+		}
+		memo[g] = false
+		if g.Blocks == nil || d == 0 {
+			return false
+		}
+		// every path through g tells the unifier
+		all := true
+		for _, ret := range returnsOf(g) {
+			if reachFromEntryAvoiding(g, ret, tells) {
+				all = false
+			}
+		}
+		memo[g] = all && len(returnsOf(g)) > 0
+		return memo[g]
+	}
+	key := fname(f) + ":unifier-told"
+	var bad *ssa.Return
+	for _, vr := range virtualReturns(f, f.Signature.Results().Len()-1) {
+		if !isNilConst(vr.Val) {
+			continue
+		}
+		if reachFromEntryAvoiding(f, vr.At, tells) {
+			bad = vr.Ret
+		}
+	}
+	if bad != nil {
+		r.Bad(rule, key, bad.Pos(), "RemoveEndpoint can answer nil without having told the unifier: the unifier still attributes the endpoint's models to it, and the next listing of another endpoint that shares one of them re-adds the removed endpoint as a source in the unified catalogue")
+	} else {
+		r.OK(rule, key, f.Pos(), "every successful removal reaches the unifier")
+	}
+	addMutants(Mutant{Prop: rule[:3], Name: "removal-not-passed-to-the-unifier", File: "internal/adapter/registry/unified_memory_registry.go", Rule: rule,
+		Old: "	r.forgetEndpointInUnifierLocked(ctx, endpointURL)\n\n	return nil\n", New: "	return nil\n"})
+}
